@@ -34,7 +34,10 @@ def _alarm(signum, frame):
     raise RunTimeout()
 
 
-def run(text, args, work, name="t.vhd", deep=False, shuffle=None, repeat=False, deep_ends=False, timeout=0):
+BAD = []      # runs of undamaged inputs that crashed or hung (any mode): reported as C19 records
+
+
+def run(text, args, work, name="t.vhd", deep=False, shuffle=None, repeat=False, deep_ends=False, timeout=300):
     """one apply_rules execution on a scratch copy; returns observations.  timeout (s): a run that does not return is
     interrupted (SIGALRM) and reported with status "hang" (C19: no run fails to terminate)"""
     import signal
@@ -100,6 +103,9 @@ def run(text, args, work, name="t.vhd", deep=False, shuffle=None, repeat=False, 
     obs["crashes"] = [e for e in T.ev if e["e"] == "Crash"]
     obs["stdout"] = out.getvalue()
     hooks.set_tracer(None)
+    if obs["status"] == "hang" or obs["status"].startswith("crash"):
+        BAD.append({"args": [a for a in args if not a.startswith("/")], "status": obs["status"], "tb": obs.get("tb", "")[-400:], "site": site_of(obs.get("tb", "")),
+                    "crashes": [hooks_name(c) for c in obs["crashes"]][:3]})
     return obs
 
 
@@ -593,6 +599,11 @@ def main():
     fn = {"gating": gating_records, "fixphase": fixphase_records, "purity": purity_records, "fixonly": fixonly_records, "formats": formats_records, "robust": robust_records}[job["mode"]]
     try:
         recs = fn(job, nid)
+        if job["mode"] != "robust":
+            # a crash or hang on an undamaged input, in whatever scenario it happened
+            for k, b in enumerate(BAD):
+                recs.append({"t": "robust", "id": nid + 900000 + k, "file": "scenario:" + job["mode"], "how": "none", "mode": " ".join(b["args"])[:60], "outcome": "hang" if b["status"] == "hang" else "crash",
+                             "status": b["status"], "located": False, "exit": True, "rule_crashes": b["crashes"], "site": b["site"], "tail": "", "tb": b["tb"]})
     except Exception:
         recs = [{"t": "machinery", "id": nid + 1, "tb": traceback.format_exc()}]
     with open(job["out"], "w") as f:
